@@ -439,6 +439,46 @@ fn pipeline(ctx: &mut Ctx, env: &mut Env, t: &str, how: How, n_tamper: usize) {
     ctx.oracle("verifies", &site("to_armored_string -> from_string -> verify"), &input, v_re, "verify() returned Err after the round trip");
     ctx.case(format!("c16_verify text={} how={} stage=reparsed", hx(tb), how.model()), format!("ok:{}", v_re as u8));
 
+    // ---- read back through a reader (`from_armor`) that delivers the document in pieces: the result
+    // must be the one `from_string` gives.  Cuts are placed after the cleartext header section (a cut
+    // inside a `Key: Value` header line is C10's finding D10b and is not re-judged here); every
+    // position from the start of the text to the end is used as the last-but-one boundary, with the
+    // final octet delivered on its own, plus single cuts.
+    if n_tamper >= 8 || (ctx.cases() % 16 == 0) {
+        if let Some(p) = &parts {
+            let bytes = doc.as_bytes();
+            let n = bytes.len();
+            let want_text = parsed.text().to_string();
+            let mut schedules: Vec<Vec<usize>> = vec![vec![n.saturating_sub(1), 1], vec![n.saturating_sub(2), 1, 1]];
+            let step = if n_tamper >= 8 { 1 } else { 7 };
+            let mut a = p.text_start;
+            while a + 1 < n {
+                schedules.push(vec![a, n - 1 - a, 1]);
+                schedules.push(vec![a, n - a]);
+                a += step;
+            }
+            for k in [64usize, 128, 129, 256] {
+                schedules.push(vec![p.text_start].into_iter().chain(std::iter::repeat(k).take(n / k + 2)).collect());
+            }
+            let mut bad: Option<String> = None;
+            for sch in &schedules {
+                let r = crate::io::ScheduledReader::new(bytes, sch);
+                let res = guarded(|| CleartextSignedMessage::from_armor(r));
+                let ok = match &res {
+                    Ok(Ok((m, _))) => m.text() == want_text && m.signatures().len() == parsed.signatures().len(),
+                    _ => false,
+                };
+                ctx.stat(if ok { "from_armor_schedule:same_as_from_string" } else { "from_armor_schedule:differs" });
+                if !ok && bad.is_none() {
+                    let why = match res { Ok(Ok(_)) => "different text/signatures".to_string(), Ok(Err(e)) => format!("error: {e}"), Err(pn) => format!("panic: {pn}") };
+                    bad = Some(format!("schedule={:?} of {} octets: {}", &sch[..sch.len().min(4)], n, why));
+                }
+            }
+            ctx.oracle("reader_schedule_independent", &site("to_armored_string -> from_armor(reader delivering pieces)"), &input,
+                bad.is_none(), bad.as_deref().unwrap_or(""));
+        }
+    }
+
     // ---- tamper sweep on the text region of the emitted document
     let Some(p) = parts else { return };
     let region = &doc[p.text_start..p.sep.max(p.text_start)];
@@ -671,14 +711,29 @@ pub fn run(ctx: &mut Ctx) {
     let fixed = ["", "abc", "abc\n", "abc \nx", "abc\t\n", "abc\r", "abc\r\n", "-", "-\n", "- ", "-----", "a\n-----BEGIN PGP SIGNATURE-----\n",
         "-----BEGIN PGP SIGNATURE-----", "-----BEGIN PGP SIGNED MESSAGE-----\nHash: SHA1\n\nx\n", "\n", "\n\n", "\r", "\r\n", " ", "a \r\nb",
         "a\r \nb", "- -", "-- ", "From x", "é-\n-é", "a\n\n-----BEGIN PGP SIGNATURE-----\n\nabcd\n=abcd\n-----END PGP SIGNATURE-----\n"];
+    // texts whose (trimmed) length sits on the 512-octet window of NormalizedReader / the 1024-octet
+    // buffer, ending in a lone CR, CR LF or LF, so that a held-back CR meets the end of the source
+    let mut fixed: Vec<String> = fixed.iter().map(|s| s.to_string()).collect();
+    for n in [511usize, 512, 513, 1023, 1024, 1025, 1535, 1536] {
+        for end in ["\r", "\r\n", "\n", "x"] {
+            for fill in ["a", "ab\n"] {
+                let mut t: String = fill.repeat(n / fill.len() + 1);
+                t.truncate(n - end.len());
+                t.push_str(end);
+                fixed.push(t);
+            }
+        }
+    }
     let hows = [How::Sign, How::New(1, 8), How::New(1, 10), How::New(2, 8), How::New(2, 10), How::Many, How::ManyOne(9), How::New(2, 12)];
-    for t in fixed {
+    for t in &fixed {
+        let t = t.as_str();
         stat_text(ctx, t);
         pure_ops(ctx, t);
-        for how in hows {
-            pipeline(ctx, &mut env, t, how, 8);
+        let long = t.len() > 100;
+        for how in hows.iter().copied().take(if long { 3 } else { hows.len() }) {
+            pipeline(ctx, &mut env, t, how, if long { 1 } else { 8 });
         }
-        foreign_docs(ctx, &mut env, t, true);
+        foreign_docs(ctx, &mut env, t, !long);
         ctx.stat("gen:fixed");
     }
 
